@@ -9,7 +9,7 @@
    no triangle is degenerate, no directed edge is used twice and the reverse of every used directed edge is
    used too — i.e. a closed (boundaryless, 2-manifold-edged), consistently oriented surface. *)
 From PF Require Import Gen.Closed Gen.ClosedProofs Gen.FamilyProofs Gen.Sphere Gen.Hemisphere Gen.Cylinder Gen.Cube
-  Gen.CylinderProofs Gen.SphereProofs Gen.CubeProofs Gen.CylinderGeom Gen.SphereGeom Gen.GenProofs.
+  Gen.CylinderProofs Gen.SphereProofs Gen.CubeProofs Gen.CylinderGeom Gen.SphereGeom Gen.CylinderVolume Gen.SphereVolume Gen.HemiVolume Gen.CubeClasses Gen.GenProofs.
 From Coq Require Import Reals.
 Open Scope N_scope.
 
@@ -190,6 +190,103 @@ Theorem normal_is_position : forall a b c : rvec,
   let n := rfnormal (a, b, c) in rdot n a = rdot n (rsub a rzero) /\ rdot n b = rdot n a /\ rdot n c = rdot n a.
 Proof. exact SphereGeom.normal_is_position. Qed.
 Print Assumptions normal_is_position.
+
+(* ================= whole-mesh theorems over the reals =================
+   [cyl_posR n rad h], [sph_posR r c rad], [hemi_posR r c rad] give the (ideal, real-arithmetic) position of vertex
+   number v exactly as the generators compute it; [cyl_trisR], [sph_trisR], [hemi_trisR] are the generator's whole index
+   list with every index replaced by its position; [rvol6] is the divergence-theorem sum (six times the signed volume). *)
+
+(* capped cylinder: enclosed volume = the inscribed n-gon prism, n * (rad^2 * sin(2*pi/n) / 2) * h *)
+Theorem cyl_volume : forall n rad h, (1 <= n)%N ->
+  rvol6 (cyl_trisR n rad h) / 6 = NR n * (rad * rad * sin (2 * PI / NR n) / 2) * h.
+Proof. exact CylinderVolume.cyl_volume. Qed.
+Print Assumptions cyl_volume.
+
+Theorem cyl_volume_pos : forall n rad h, (3 <= n)%N -> 0 < rad -> 0 < h -> 0 < rvol6 (cyl_trisR n rad h) / 6.
+Proof. exact CylinderVolume.cyl_volume_pos. Qed.
+Print Assumptions cyl_volume_pos.
+
+(* every triangle of the whole cylinder mesh (strip, both caps, the seam included) faces away from the centre *)
+Theorem cyl_all_faces_outward : forall n rad h, (3 <= n)%N -> 0 < rad -> 0 < h ->
+  Forall (rfaces_away rzero) (cyl_trisR n rad h).
+Proof. exact CylinderVolume.cyl_all_faces_outward. Qed.
+Print Assumptions cyl_all_faces_outward.
+
+(* the prism is smaller than the cylinder, and its volume tends to pi * rad^2 * h as the side count grows
+   (monotonicity in n — x -> sin x / x decreasing — is not proved) *)
+Theorem cyl_volume_below_analytic : forall n rad h, (3 <= n)%N -> 0 < rad -> 0 < h ->
+  rvol6 (cyl_trisR n rad h) / 6 < PI * rad * rad * h.
+Proof. exact CylinderVolume.cyl_volume_below_analytic. Qed.
+Print Assumptions cyl_volume_below_analytic.
+
+Theorem cyl_volume_converges : forall rad h,
+  Un_cv (fun m : nat => rvol6 (cyl_trisR (N.of_nat m) rad h) / 6) (PI * rad * rad * h).
+Proof. exact CylinderVolume.cyl_volume_converges. Qed.
+Print Assumptions cyl_volume_converges.
+
+(* welded UV sphere: the divergence sum as a finite sum over the rings — c wedges, each the two pole pyramids plus
+   r-2 frusta: the volume of the inscribed polyhedron for these (rows, columns) *)
+Theorem sphere_volume_is_sum : forall r c rad, (2 <= r)%N -> (1 <= c)%N ->
+  rvol6 (sph_trisR r c rad) =
+    NR c * (rad * rad * rad * sin (2 * PI / NR c)) *
+      (sin (phi r 1) * sin (phi r 1) + sin (phi r (r - 1)) * sin (phi r (r - 1))
+       + sin (PI / NR r) * rsum (fun j => sin (phi r (j + 1)) + sin (phi r (j + 2))) (nseq (r - 2))).
+Proof. exact SphereVolume.sphere_volume_is_sum. Qed.
+Print Assumptions sphere_volume_is_sum.
+
+Theorem sphere_volume_pos : forall r c rad, (2 <= r)%N -> (3 <= c)%N -> 0 < rad -> 0 < rvol6 (sph_trisR r c rad) / 6.
+Proof. exact SphereVolume.sphere_volume_pos. Qed.
+Print Assumptions sphere_volume_pos.
+
+(* every triangle of the whole sphere mesh faces away from the centre; since the supplied vertex normals are
+   position/|position| this is also "normals on the outer side of every incident face" (normal_is_position) *)
+Theorem sphere_all_faces_outward : forall r c rad, (2 <= r)%N -> (3 <= c)%N -> 0 < rad ->
+  Forall (rfaces_away rzero) (sph_trisR r c rad).
+Proof. exact SphereVolume.sphere_all_faces_outward. Qed.
+Print Assumptions sphere_all_faces_outward.
+
+(* the unwelded sphere copies calculatedPositions[class of k] into fresh vertex k: same triangles, hence same
+   volume and orientation *)
+Theorem sphereU_same_triangles : forall r c rad,
+  tris_of (map (sphU_posR r c rad) (sphereU_idx r c)) = sph_trisR r c rad.
+Proof. exact SphereVolume.sphereU_same_triangles. Qed.
+Print Assumptions sphereU_same_triangles.
+
+(* hemisphere: volume as a finite sum (the base fan, which contains the origin, contributes 0) *)
+Theorem hemi_volume_is_sum : forall r c rad, (2 <= r)%N -> (1 <= c)%N ->
+  rvol6 (hemi_trisR r c rad) =
+    NR c * (rad * rad * rad * sin (2 * PI / NR c)) *
+      (sin (alpha r (r - 2)) * sin (alpha r (r - 2))
+       + sin (PI / (2 * NR r)) * rsum (fun j => sin (alpha r j) + sin (alpha r (j + 1))) (nseq (r - 2))).
+Proof. exact HemiVolume.hemi_volume_is_sum. Qed.
+Print Assumptions hemi_volume_is_sum.
+
+Theorem hemi_volume_pos : forall r c rad, (2 <= r)%N -> (3 <= c)%N -> 0 < rad -> 0 < rvol6 (hemi_trisR r c rad) / 6.
+Proof. exact HemiVolume.hemi_volume_pos. Qed.
+Print Assumptions hemi_volume_pos.
+
+(* [hemi_trisR r c rad = map (hemi_triR r c rad) (sph_ps r c)] (HemiVolume.hemi_trisR_eq): every dome / apex triangle
+   faces away from the sphere centre, every base triangle away from every axis point above the base *)
+Theorem hemi_all_faces_outward : forall r c rad y, (2 <= r)%N -> (3 <= c)%N -> 0 < rad -> 0 < y ->
+  hemi_trisR r c rad = map (hemi_triR r c rad) (sph_ps r c) /\
+  (forall p, In p (sph_ps r c) -> is_base p = false -> rfaces_away rzero (hemi_triR r c rad p)) /\
+  (forall i, (i < c)%N -> rfaces_away (0, y, 0) (hemi_triR r c rad (TF i))).
+Proof. exact HemiVolume.hemi_all_faces_outward. Qed.
+Print Assumptions hemi_all_faces_outward.
+
+(* ---------- coincidence classes of the boxes derived from the real positions ---------- *)
+(* two of the 24 corners of the six-quad box are the same point exactly when cubeQ_cls merges them; the welded
+   box's 8 corners are pairwise distinct — for all positive real extents *)
+Theorem cubeQ_classes_from_positions : forall hw hh hd, 0 < hw -> 0 < hh -> 0 < hd ->
+  forall i j, (i < 24)%N -> (j < 24)%N ->
+    (at_ (cubeQ_posR hw hh hd) i = at_ (cubeQ_posR hw hh hd) j <-> cubeQ_cls i = cubeQ_cls j).
+Proof. exact CubeClasses.cubeQ_classes_from_positions. Qed.
+Print Assumptions cubeQ_classes_from_positions.
+
+Theorem cubeW_corners_distinct : forall hw hh hd, 0 < hw -> 0 < hh -> 0 < hd ->
+  forall i j, (i < 8)%N -> (j < 8)%N -> at_ (cubeW_posR hw hh hd) i = at_ (cubeW_posR hw hh hd) j -> i = j.
+Proof. exact CubeClasses.cubeW_corners_distinct. Qed.
+Print Assumptions cubeW_corners_distinct.
 Close Scope R_scope.
 
 (* ---------- non-vacuity ---------- *)
